@@ -907,6 +907,11 @@ static int _general_name_regex_match(char *v, int l, struct certattrmatch *match
         return 0;
     }
     debug(DBG_DBG, "matchtregex: matching %s", s);
+    if (strlen(s) != (size_t)l) {
+        debug(DBG_WARN, "matchregex: refusing name with embedded NUL");
+        free(s);
+        return 0;
+    }
     if (regexec(match->regex, s, 0, NULL, 0) == 0) {
         free(s);
         return 1;
